@@ -1,13 +1,13 @@
 # C16 — additional-layer store: lookup / use / release in any order
 PROPS["C16"] = dict(
     props_file="Properties/C16.v",
-    harnesses=[dict(cmd="store", mod="root", model="Model.StoreRef", quick=200, thorough=12000, shard=25, race=400,
+    harnesses=[dict(cmd="store", mod="root", model="Model.StoreRef", quick=160, thorough=12000, shard=20, race=400,
                     require=["op.lookup.diff", "op.lookup.blob", "op.lookup.racing", "op.info", "op.use", "op.release",
                              "op.loadref", "op.resolve", "op.probe", "op.expire", "op.racerel", "fault.manifest", "fault.blob",
                              "fault.blob.delivered", "result.lookup.ok", "result.lookup.fail.unknown", "result.lookup.fail.fault",
                              "result.release.layerzero", "result.release.imagezero", "result.relookup.ok", "result.release.err",
                              "result.racerel.gate", "result.racerel.dropped", "result.racerel.errgate"]),
-               dict(cmd="storefs", mod="root", model="Model.StoreFS", quick=96, thorough=6000, shard=12, race=200,
+               dict(cmd="storefs", mod="root", model="Model.StoreFS", quick=72, thorough=6000, shard=9, race=200,
                     require=["op.lookup.diff", "op.lookup.blob", "op.lookup.info", "op.lookup.use", "op.lookup.other", "op.use",
                              "op.createother", "op.rmdir", "op.badref", "op.alias", "op.baddigest", "op.pool", "op.expire", "fault.manifest",
                              "fault.blob", "result.lookup.ok", "result.lookup.served-from-tree", "result.lookup.fail.unknown",
